@@ -58,9 +58,29 @@ Theorem C50_oracle_sound : forall c,
   check_C50 c = true <->
   c_obs c <> RPanic
   /\ (forall l2 o2, c_twin c = Some (l2, o2) -> c_haspw c = true -> c_obs c = o2)
-  /\ (forall m o, c_marker c = Some m -> c_obs c = ROut o -> c_haspw c = true ->
+  /\ (forall m o, c_marker c = Some m -> c_obs c = ROut o -> (c_accepted c = true \/ c_haspw c = true) ->
         ~ exists a b, o = a ++ m ++ b).
 Proof. exact check_C50_sound. Qed.
+
+(* which strings location.Parse accepts: no trimming of white space *)
+Theorem C50_leading_whitespace_rejected : forall c r post ok, is_ws c = true -> has_colon (c :: r) = true ->
+  parse_accepts (c :: r) post false ok = false.
+Proof. exact leading_ws_rejected. Qed.
+
+Theorem C50_rest_rejected_when_url_invalid : forall loc reg ok,
+  fst (cut 58 loc) = rest_scheme -> parse_accepts loc None reg ok = false.
+Proof. exact rest_rejected_when_url_invalid. Qed.
+
+(* accepted loc -> no_password (strip loc) *)
+Theorem C50_accepted_no_password : forall loc post reg ok pre u p,
+  fst (cut 58 loc) = rest_scheme -> parse_accepts loc post reg ok = true ->
+  locate (prepare (skipn 5 loc)) = UPw pre u p ->
+  exists po, post = Some po /\ strip_location loc post = ROut (firstn 5 loc ++ pre ++ u ++ mask ++ po).
+Proof. exact accepted_no_password. Qed.
+
+Theorem C50_accepted_mkurl : forall sch un pw h r post reg ok,
+  parse_accepts (rest_scheme ++ 58 :: mkurl sch un pw h r) (Some post) reg ok = true.
+Proof. exact accepted_mkurl. Qed.
 
 Theorem C50_model_twin_ok : forall sch un pw1 pw2 h r u p1 p2 post,
   good_scheme sch -> clean un -> clean pw1 -> clean pw2 -> clean h -> ~ In 58 un -> ~ In 64 h ->
@@ -70,7 +90,7 @@ Theorem C50_model_twin_ok : forall sch un pw1 pw2 h r u p1 p2 post,
   ends_slash (mkurl sch un pw1 h r) = true -> ends_slash (mkurl sch un pw2 h r) = true ->
   let l1 := rest_scheme ++ 58 :: mkurl sch un pw1 h r in
   let l2 := rest_scheme ++ 58 :: mkurl sch un pw2 h r in
-  twin_ok (mk l1 (Some post) (strip_rest l1 (Some post)) true (Some (l2, strip_rest l2 (Some post))) None) = true.
+  twin_ok (mk l1 (Some post) (strip_rest l1 (Some post)) true true true true (Some (l2, strip_rest l2 (Some post))) None) = true.
 Proof. exact model_twin_ok. Qed.
 
 Print Assumptions C50_replace_hits_userinfo.
@@ -82,3 +102,7 @@ Print Assumptions C50_noninterference.
 Print Assumptions C50_no_panic.
 Print Assumptions C50_oracle_sound.
 Print Assumptions C50_model_twin_ok.
+Print Assumptions C50_leading_whitespace_rejected.
+Print Assumptions C50_rest_rejected_when_url_invalid.
+Print Assumptions C50_accepted_no_password.
+Print Assumptions C50_accepted_mkurl.
